@@ -230,7 +230,7 @@ int64_t iwatoi(const char *str) {
     str++;
   }
   int sign = 1;
-  int64_t num = 0;
+  uint64_t num = 0; // unsigned: wraps instead of overflowing
   if (*str == '-') {
     str++;
     sign = -1;
@@ -244,10 +244,10 @@ int64_t iwatoi(const char *str) {
     if ((*str < '0') || (*str > '9')) {
       break;
     }
-    num = num * 10 + *str - '0';
+    num = num * 10 + (uint64_t) (*str - '0');
     str++;
   }
-  return num * sign;
+  return (int64_t) (sign < 0 ? 0 - num : num);
 }
 
 int64_t iwatoi2(const char *str, size_t len) {
@@ -259,7 +259,7 @@ int64_t iwatoi2(const char *str, size_t len) {
     return 0;
   }
   int sign = 1;
-  int64_t num = 0;
+  uint64_t num = 0; // unsigned: wraps instead of overflowing
   if (*str == '-') {
     str++;
     len--;
@@ -268,18 +268,18 @@ int64_t iwatoi2(const char *str, size_t len) {
     str++;
     len--;
   }
-  if (!strcmp(str, "inf")) {
+  if ((len >= 3) && !memcmp(str, "inf", 3) && ((len == 3) || (str[3] == '\0'))) { // never reads str[len]
     return (INT64_MAX * sign);
   }
   while (len > 0 && *str != '\0') {
     if ((*str < '0') || (*str > '9')) {
       break;
     }
-    num = num * 10 + *str - '0';
+    num = num * 10 + (uint64_t) (*str - '0');
     str++;
     len--;
   }
-  return num * sign;
+  return (int64_t) (sign < 0 ? 0 - num : num);
 }
 
 long double iwatof(const char *str) {
@@ -333,7 +333,8 @@ int iwafcmp(const char *aptr, int asiz, const char *bptr, int bsiz) {
   const unsigned char *arp = (const unsigned char*) aptr;
   const unsigned char *brp = (const unsigned char*) bptr;
   int alen = asiz, blen = bsiz;
-  int64_t anum = 0, bnum = 0;
+  uint64_t ua = 0, ub = 0; // unsigned accumulators: wrap instead of overflowing
+  int64_t anum, bnum;
   int asign = 1, bsign = 1;
 
   // A part
@@ -351,11 +352,11 @@ int iwafcmp(const char *aptr, int asiz, const char *bptr, int bsiz) {
     if ((c < '0') || (c > '9')) {
       break;
     }
-    anum = anum * 10 + c - '0';
+    ua = ua * 10 + (uint64_t) (c - '0');
     arp++;
     alen--;
   }
-  anum *= asign;
+  anum = (int64_t) (asign < 0 ? 0 - ua : ua);
 
   // B part
   while (blen > 0 && (*brp <= ' ' || *brp == 0x7f)) {
@@ -372,11 +373,11 @@ int iwafcmp(const char *aptr, int asiz, const char *bptr, int bsiz) {
     if ((c < '0') || (c > '9')) {
       break;
     }
-    bnum = bnum * 10 + c - '0';
+    ub = ub * 10 + (uint64_t) (c - '0');
     brp++;
     blen--;
   }
-  bnum *= bsign;
+  bnum = (int64_t) (bsign < 0 ? 0 - ub : ub);
   if (anum < bnum) {
     return -1;
   }
